@@ -207,6 +207,9 @@ Proof.
   cbn [w_n w_rev]. rewrite rev_append_rev, app_length, rev_length. lia.
 Qed.
 
+Lemma wb_wf_be16 b v : wb_wf b -> wb_wf (wb_append_be16 b v).
+Proof. intros H. unfold wb_append_be16. apply wb_wf_append. exact H. Qed.
+
 Lemma wb_wf_emit ls : forall b, wb_wf b ->
   wb_wf (fold_left (fun b l => wb_append (wb_append_byte b (Z.land (slen l) 255)) l) ls b).
 Proof.
@@ -218,11 +221,9 @@ Lemma w_live_be16_ptr b idx :
   0 <= idx < 16384 ->
   w_live (wb_append_be16 b (Z.lor 49152 (Z.land idx 16383))) = w_live b ++ [Z.to_N (192 + idx / 256); Z.to_N (idx mod 256)].
 Proof.
-  intros H. unfold wb_append_be16. rewrite !w_live_append_byte.
+  intros H. unfold wb_append_be16. rewrite w_live_append.
   destruct (pointer_bytes idx H) as [E1 E2]. cbv zeta in E1, E2.
-  rewrite E1. 
-  assert (E3 : Z.land (Z.land (Z.lor 49152 (Z.land idx 16383)) 255) 255 = idx mod 256) by exact E2.
-  rewrite E3. rewrite <- app_assoc. reflexivity.
+  rewrite E1, E2. reflexivity.
 Qed.
 
 (* ---- the offset-list invariant (DESIGN.md A.4) ---- *)
@@ -291,7 +292,7 @@ Proof.
       { apply escape_name_inj; try assumption. fold name. rewrite <- Hon. symmetry. exact Hskip. }
       injection H as <- <-.
       exists [Z.to_N (192 + idx / 256); Z.to_N (idx mod 256)], ol.
-      split; [reflexivity|]. split; [apply wb_wf_append; apply wb_wf_append; exact Hwf|].
+      split; [reflexivity|]. split; [apply wb_wf_be16; exact Hwf|].
       split; [rewrite (w_live_be16_ptr b idx Hidx), Hlive, <- app_assoc; reflexivity|].
       split; [apply ol_ok_app; unfold ol_ok; rewrite Forall_forall; exact Hol|].
       split; [apply ptr_bytes_ok; exact Hidx|].
@@ -345,7 +346,7 @@ Proof.
         destruct (nameoffset_create ol name (Z.of_nat (length out))) as [ol'| |] eqn:Ec; cbn [bind] in H; try discriminate.
         injection H as <- <-.
         exists more, ol'. split; [reflexivity|].
-        split; [apply wb_wf_append; apply wb_wf_append; exact Hwf1|].
+        split; [apply wb_wf_be16; exact Hwf1|].
         split; [exact Hlive2|].
         assert (Hmb : bytes_ok more) by (unfold more; apply bytes_ok_app; [apply bytes_ok_enc; exact Hps | apply ptr_bytes_ok; exact Hidx]).
         split; [|split; [exact Hmb | exact Hdec]].
@@ -363,7 +364,7 @@ Proof.
         -- specialize (Hdec []). rewrite !app_nil_r in Hdec. exact Hdec.
       * try rewrite Ereg in H. injection H as <- <-.
         exists more, ol. split; [reflexivity|].
-        split; [apply wb_wf_append; apply wb_wf_append; exact Hwf1|].
+        split; [apply wb_wf_be16; exact Hwf1|].
         split; [exact Hlive2|]. split; [apply ol_ok_app; unfold ol_ok; rewrite Forall_forall; exact Hol|].
         split; [unfold more; apply bytes_ok_app; [apply bytes_ok_enc; exact Hps | apply ptr_bytes_ok; exact Hidx] | exact Hdec].
   - (* no suffix registered: all labels and the terminating zero octet *)
